@@ -105,46 +105,63 @@ def errcode(e):
 
 
 def cls_spec(c):
-    """a sender class of a case: truthiness, parent class index (-1: none), declared with the MetaSignals
-    metaclass or not, the `signals` list of its body (None: no such attribute).  An int is a plain class."""
+    """a sender class of a case: truthiness, parent class indexes (in base order; earlier classes only), declared
+    with the MetaSignals metaclass or not, the `signals` list of its body (None: no such attribute).
+    An int is a plain class without bases."""
     if isinstance(c, dict):
-        return bool(c.get("t", 1)), c.get("p", -1), bool(c.get("m", 0)), c.get("sig")
-    return bool(c), -1, False, None
+        p = c.get("p", -1)
+        parents = [x for x in p if x >= 0] if isinstance(p, list) else ([p] if p >= 0 else [])
+        return bool(c.get("t", 1)), parents, bool(c.get("m", 0)), c.get("sig")
+    return bool(c), [], False, None
 
 
 def meta_info(specs):
     """For classes created through urwid.MetaSignals (directly, or by subclassing such a class): the names the
-    metaclass registers at class creation = the class body's `signals` followed by the `signals` attribute of the
-    base class (whatever its metaclass), without duplicates (the metaclass documents: 'register the list of
-    signals in the class variable signals, including signals in superclasses').
+    metaclass registers at class creation = the class body's `signals` followed by the `signals` attribute of each
+    base class in base order (whatever the base's metaclass), without duplicates (the metaclass documents:
+    'register the list of signals in the class variable signals, including signals in superclasses').  A class
+    registered once keeps its list: creating further subclasses does not change it.
+    The attribute lookups follow Python's own MRO: they are done on a shadow hierarchy of plain classes.
     Returns {class index: names} in class order."""
-    attr, is_meta, out = {}, {}, {}
+    shadow, is_meta, out = [], {}, {}
     for i, c in enumerate(specs):
-        _, p, m, sig = cls_spec(c)
-        is_meta[i] = m or (p >= 0 and is_meta[p])
-        inherited = attr.get(p, []) if p >= 0 else []
+        _, parents, m, sig = cls_spec(c)
+        is_meta[i] = m or any(is_meta[p] for p in parents)
+        inherited = [x for p in parents for x in getattr(shadow[p], "signals", [])]
+        ns = {}
         if is_meta[i]:
             own = list(sig) if sig is not None else []
             out[i] = list(dict.fromkeys(own + inherited))
-            attr[i] = own + inherited if sig is not None else inherited
-        else:
+            if sig is not None:
+                ns["signals"] = own + inherited      # the list of the class body is extended in place
+        elif sig is not None:
             # a plain class: nothing is registered; a `signals` list in its body is just a class attribute
             # (which the metaclass of a subclass will read)
-            attr[i] = list(sig) if sig is not None else inherited
+            ns["signals"] = list(sig)
+        shadow.append(type("Shadow", tuple(shadow[p] for p in parents), ns))
     return out
+
+
+def hierarchy_ok(specs):
+    """can Python build these classes at all (consistent method resolution order)?"""
+    try:
+        meta_info(specs)
+        return True
+    except TypeError:
+        return False
 
 
 def mk_classes(specs, urwid):
     import types
     classes = []
     for c in specs:
-        truthy, p, m, sig = cls_spec(c)
+        truthy, parents, m, sig = cls_spec(c)
         ns = {}
         if not truthy:
             ns["__bool__"] = lambda self: False
         if sig is not None:
             ns["signals"] = [sname(n) for n in sig]
-        bases = (classes[p],) if p >= 0 else ()
+        bases = tuple(classes[p] for p in parents)
         kw = {"metaclass": urwid.MetaSignals} if m else {}
         classes.append(types.new_class("Sender", bases, kw, lambda d, ns=ns: d.update(ns)))
     return classes
@@ -311,16 +328,19 @@ class C14(core.Check):
                   "sender, also one that is false in a boolean context).  Nested emits use fuel; theorems are about emits that return (out-of-fuel = RecursionError is an "
                   "exception and excluded explicitly).  The model is hand-written and tied to signals.py by an exact "
                   "correspondence of event traces and final handler tables.  Registration is per exact class in model and theorems (unregistered_name_rejected looks only at the "
-                  "sender's own class); sender classes that are subclasses of registered classes, declared plainly or through "
-                  "the MetaSignals metaclass (whose registration = own signals + those of the base classes is computed by the "
-                  "harness), are part of the correspondence stream.  ORACLE-ONLY widget-level stream (no model, no theorem): "
+                  "sender's own class); sender classes that are subclasses of registered classes (single and multiple "
+                  "inheritance), declared plainly or through the MetaSignals metaclass (whose registration = own signals + "
+                  "those of the base classes is computed by the harness; base classes are exercised after their subclasses "
+                  "were created), are part of the correspondence stream.  ORACLE-ONLY widget-level stream (no model, no theorem): "
                   "Button / CheckBox / RadioButton constructor callbacks with user_data over a value set including falsy "
                   "non-None values (0, False, '', 0.0, ()), connect/disconnect by the same arguments, Edit/IntEdit change and "
                   "postchange, a Button subclass with extra signals, and ListBox body replacement followed by emits and "
                   "modifications of old and new walkers (observed through a counting _invalidate) are judged by a reference "
                   "handler list only.  ORACLE-ONLY (harness, not a theorem): 'the signal "
                   "machinery never keeps a sender or a weak argument alive' is a statement about the CPython heap; it is checked "
-                  "by dropping the references, gc.collect() and weakref liveness, at every drop point of every history and at "
+                  "by dropping the references and weakref liveness - for senders first under pure reference counting "
+                  "(collector disabled, weak arguments outliving the sender: a cycle through the machinery that only the "
+                  "cyclic collector frees counts as keeping the sender alive), then after gc.collect() -, at every drop point of every history and at "
                   "the end of each case.")
     level_note = ("Trusted: Coq kernel, ExtrOcamlBasic extraction + OCaml driver, the hand-written model (validated by the "
                   "correspondence, not proved against CPython), the Python oracle, CPython reference counting / gc.collect() as "
@@ -555,6 +575,10 @@ class C14(core.Check):
             # ---- heap probe (oracle-only clause) ----
             sender_wr = [weakref.ref(o) for o in run.senders]
             run.senders = None
+            # first by reference counting (the collector is disabled, nothing has been collected yet, the weak
+            # arguments still alive outlive the senders): a reference cycle through the machinery that only the
+            # cyclic collector can free counts as keeping the sender alive
+            senders_kept_rc = [i for i, r in enumerate(sender_wr) if r() is not None]
             gc.collect()
             senders_kept = [i for i, r in enumerate(sender_wr) if r() is not None]
             run.reg.clear()
@@ -569,7 +593,8 @@ class C14(core.Check):
             if was:
                 gc.enable()
         return {"trace": trace, "final": final, "dead": dead,
-                "heap": {"senders_kept": senders_kept, "objs_kept": objs_kept, "unraisable": unraisable}}
+                "heap": {"senders_kept_refcount": senders_kept_rc, "senders_kept": senders_kept, "objs_kept": objs_kept,
+                         "unraisable": unraisable}}
 
     # ---------- model wire format ----------
     @staticmethod
@@ -630,7 +655,7 @@ class C14(core.Check):
             return {"malformed": ints[:50]}
         # the heap clause is not modelled: the expected value is the constant "nothing kept alive"
         return {"trace": trace, "final": final, "dead": dead,
-                "heap": {"senders_kept": [], "objs_kept": [], "unraisable": []}}
+                "heap": {"senders_kept_refcount": [], "senders_kept": [], "objs_kept": [], "unraisable": []}}
 
     # ---------- oracle: a plain reference list per (sender, name), written from the property text ----------
     def analyse_widget(self, case, res):
@@ -784,10 +809,23 @@ class C14(core.Check):
             for f in emits_on(h["sn"]):
                 f["lost"].add(h["key"])
 
+        # Which names a class declared through MetaSignals supports when several levels / several bases are
+        # involved is only loosely documented ("including signals in superclasses"): a name declared by the class or
+        # any of its ancestors is never counted as "not registered" for it, until register_signal() names the class
+        # explicitly.  (The exact set urwid registers is pinned by the correspondence, not by this oracle.)
+        anc_names, n_meta = {}, len(meta_info(case["classes"]))
+        for i, c in enumerate(case["classes"]):
+            _, parents, _, sig = cls_spec(c)
+            anc_names[i] = set(sig or ()).union(*[anc_names[p] for p in parents]) if parents else set(sig or ())
+        n_reg_events = 0
+
         for ev in res["trace"]:
             t = ev[0]
             if t == 1:
                 registered[ev[1]] = set(ev[3:3 + ev[2]])
+                n_reg_events += 1
+                if n_reg_events > n_meta:
+                    anc_names[ev[1]] = set()      # explicit register_signal: exactly these names
             elif t in (2, 3):
                 s, n, cb = ev[1], ev[2], ev[3]
                 p = 4
@@ -805,7 +843,7 @@ class C14(core.Check):
                     continue
                 sn = (s, n)
                 if t == 2:
-                    unreg = n not in registered.get(cls_of[s], ())
+                    unreg = n not in registered.get(cls_of[s], ()) and n not in anc_names.get(cls_of[s], ())
                     if unreg:
                         note("connect_unregistered")
                         if out >= 0:
@@ -950,6 +988,9 @@ class C14(core.Check):
                 msgs.append(f"weak argument object {o} was dropped by its owner but is still alive at top level")
         if heap.get("senders_kept"):
             msgs.append(f"senders {heap['senders_kept']} are kept alive after their owner dropped them")
+        elif heap.get("senders_kept_refcount"):
+            msgs.append(f"senders {heap['senders_kept_refcount']} are not released when their owner drops them: a reference "
+                        f"cycle through the signal machinery keeps them alive until the cyclic garbage collector runs")
         if heap.get("objs_kept"):
             msgs.append(f"weak argument objects {heap['objs_kept']} are kept alive after their owner dropped them")
         if heap.get("unraisable"):
@@ -1123,10 +1164,14 @@ class C14(core.Check):
             def spec(i):
                 m = rng.random() < 0.4
                 d = {"t": rng.choice([0, 1, 1, 1]), "p": rng.randrange(-1, i), "m": 1 if m else 0}
+                if i == 2 and rng.random() < 0.4:
+                    d["p"] = rng.choice([[0, 1], [1, 0]])
                 if m or rng.random() < 0.2:
                     d["sig"] = [x for x in range(nn) if rng.random() < 0.5]
                 return d
             classes = [spec(i) for i in range(3)]
+            if not hierarchy_ok(classes):
+                classes[2]["p"] = 1          # the bases were related: no consistent method resolution order
         senders = [rng.choice([0, 0, 1, 2]) for _ in range(ns)]
         objs = [rng.choice([0, 0, 1]) for _ in range(nobj)]
         nkeys = nops // 2
@@ -1187,6 +1232,30 @@ class C14(core.Check):
                                 ops.append(["emit", s, n, [5]])
                         yield {"kind": "hierarchy", "fuel": 1, "nnames": 3, "maxcalls": 50, "classes": [a, b, c],
                                "senders": [0, 1, 2], "objs": [], "cbs": [[1, []]], "ops": ops}
+        # multiple inheritance: unrelated bases A, B (each plain with a signals attribute, or MetaSignals), then
+        # C(A, B) / C(B, A) with or without its own list, then D(C); every base is exercised AFTER the subclasses exist
+        kinds = {"meta0": {"m": 1, "sig": [0]}, "meta1": {"m": 1, "sig": [1]}, "meta01": {"m": 1, "sig": [0, 1]},
+                 "meta_empty": {"m": 1, "sig": []}, "plain": {"m": 0}, "plain_attr2": {"m": 0, "sig": [2]}}
+        for ka in ("meta0", "meta01", "meta_empty", "plain", "plain_attr2"):
+            for kb in ("meta1", "meta01", "plain", "plain_attr2"):
+                for order in ([0, 1], [1, 0]):
+                    for csig in (None, [], [2], [1]):
+                        for cm in (0, 1):
+                            a = dict(kinds[ka], t=1, p=-1)
+                            b = dict(kinds[kb], t=1, p=-1)
+                            c = {"t": 1, "p": order, "m": cm}
+                            if csig is not None:
+                                c["sig"] = csig
+                            d = {"t": 1, "p": [2], "m": 0}
+                            ops = []
+                            for s in range(4):
+                                for n in range(3):
+                                    ops.append(["con", s, n, 0, None, [], [10 * s + n]])
+                            for s in range(4):
+                                for n in range(3):
+                                    ops.append(["emit", s, n, [5]])
+                            yield {"kind": "hierarchy", "fuel": 1, "nnames": 3, "maxcalls": 50, "classes": [a, b, c, d],
+                                   "senders": [0, 1, 2, 3], "objs": [], "cbs": [[1, []]], "ops": ops}
 
     # ---------- widget-level stream (oracle only: there is no model of the widgets) ----------
     WIDGET_SIGNALS = {"button": ["click"], "button_sub": ["click", "extra"], "checkbox": ["change", "postchange"],
